@@ -412,11 +412,13 @@ func main() {
 	var wg sync.WaitGroup
 	var mu sync.Mutex
 	restarts := 0
+	var aborted []string
 	for s := 0; s < shards; s++ {
 		wg.Add(1)
 		go func(s int) {
 			defer wg.Done()
 			from := 0
+			shardRestarts := 0
 			for {
 				out := filepath.Join(dir, fmt.Sprintf("out-%d-%d.json", s, from))
 				lastIdx, lastOp, state, stderr := runShard(workFile, s, shards, from, out)
@@ -431,10 +433,8 @@ func main() {
 				}
 				mu.Lock()
 				restarts++
-				if restarts > 400 {
-					core.Fatalf("more than 400 child restarts")
-				}
 				mu.Unlock()
+				shardRestarts++
 				if lastIdx < 0 {
 					core.Fatalf("shard %d died before its first item:\n%s", s, firstN(stderr, 3000))
 				}
@@ -456,11 +456,25 @@ func main() {
 					run.Violate(core.Violation{Sig: "hang|" + opn, Clause: "the call completes", Case: caseOf(&it, opn), Observe: "child killed by the parent's watchdog"})
 				}
 				from = lastIdx + 1
+				if shardRestarts >= 6 {
+					// the same defect keeps killing or hanging the child: what was found is reported, the rest of
+					// this shard is not run (every hang costs a full watchdog period)
+					mu.Lock()
+					aborted = append(aborted, fmt.Sprintf("shard %d stopped at item %d after %d crashes/hangs", s, lastIdx, shardRestarts))
+					mu.Unlock()
+					return
+				}
 			}
 		}(s)
 	}
 	wg.Wait()
 	run.Extra["child_restarts"] = restarts
+	if len(aborted) > 0 {
+		run.Extra["shards_stopped_early"] = aborted
+		if run.NumNew() == 0 {
+			core.Fatalf("shards stopped early without a new violation: %v", aborted)
+		}
+	}
 	run.Exhaustive = true
 	run.Finish()
 }
